@@ -872,6 +872,24 @@ func exchange(u *vk.Unit, p *reg.Package, m reg.Method, cm reflect.Value, args [
 			cl = "header-value-whitespace-normalised"
 		case hasEmptyPiece(resp, 0):
 			cl = "empty-piece-in-parameter-or-header"
+			// a response wrapper (header members next to the body): every member that differs needs an
+			// explanation of its own, an empty piece in another member explains nothing
+			r, g := resp, got
+			for r.IsValid() && (r.Kind() == reflect.Pointer || r.Kind() == reflect.Interface) && !r.IsNil() {
+				r = r.Elem()
+			}
+			for g.IsValid() && (g.Kind() == reflect.Pointer || g.Kind() == reflect.Interface) && !g.IsNil() {
+				g = g.Elem()
+			}
+			if r.IsValid() && g.IsValid() && r.Kind() == reflect.Struct && r.Type() == g.Type() {
+				if _, isWrapper := r.Type().FieldByName("Response"); isWrapper {
+					if c, ok := explainEachMember(r, g); ok {
+						cl = c
+					} else {
+						cl = "response-silent-change"
+					}
+				}
+			}
 		}
 		return vk.F(cl, "%s: handler returned %s %s, the client received %s %s (difference at %s, status %d, server error: %s)", desc(), resp.Type(), respDesc, got.Type(), render(got.Interface()), where, st.status, st.serverErr)
 	}
